@@ -444,11 +444,14 @@ MonRestoreSession ==
   /\ mpc = "m.act" /\ action = "restoreSession"
   /\ state' = Report("Reconnecting")
   /\ IF sess /\ RpcOk /\ srvSess /\ ~ctxDone
-       THEN action' = "restoreSubscriptions" /\ restored' = TRUE /\ UNCHANGED sess
-       ELSE action' = "recreateSession" /\ restored' = FALSE /\ sess' = FALSE
+       THEN /\ mux = "none"      \* c.SubscriptionIDs() (read lock) fills subsToRepublish
+            /\ action' = "restoreSubscriptions" /\ restored' = TRUE /\ UNCHANGED sess
+            /\ toRepublish' = IF Dev_RestoreNoResume THEN toRepublish ELSE subs
+            /\ toRecreate' = IF Dev_RestoreNoResume THEN toRecreate ELSE {}
+       ELSE action' = "recreateSession" /\ restored' = FALSE /\ sess' = FALSE /\ UNCHANGED <<toRepublish, toRecreate>>
   /\ mpc' = ArmEnd
   /\ Log("mon", "RestoreSession", action')
-  /\ UNCHANGED <<subs, srvSubs, srvSess, conn, errq, pausech, resumech, mux, activeSubs, toRecreate, toRepublish,
+  /\ UNCHANGED <<subs, srvSubs, srvSess, conn, errq, pausech, resumech, mux, activeSubs,
                  ctxDone, dials, lost>> /\ UNCH_MON
 
 \* recreateSession: CreateSession + ActivateSession + UpdateNamespaces on the current channel
@@ -466,6 +469,7 @@ MonRecreateSession ==
 \* transferSubscriptions: the gopcua server answers BadServiceUnsupported -> recreate all
 MonTransfer ==
   /\ mpc = "m.act" /\ action = "transferSubscriptions"
+  /\ mux = "none"                \* c.SubscriptionIDs() (read lock)
   /\ IF SrvTransfers /\ SessOk
        THEN toRepublish' = subs \cap srvSubs /\ toRecreate' = subs \ srvSubs
        ELSE toRepublish' = {} /\ toRecreate' = subs
@@ -482,10 +486,14 @@ MonTransfer ==
 \* An error sends the monitor back to recreateSession (contract) or is overwritten (as-is).
 \* Subscription ids in this model are client object identities (a recreated subscription keeps
 \* its identity although the server assigns a new id).
-\* after a restored session (contract) every registered subscription is republished; a server
-\* without Republish (gopcua server) makes the republish fail and the subscription is re-created
-RsRep == IF restored /\ ~Dev_RestoreNoResume THEN (IF SrvTransfers THEN subs ELSE {}) ELSE toRepublish
-RsRec == IF restored /\ ~Dev_RestoreNoResume THEN (IF SrvTransfers THEN {} ELSE subs) ELSE toRecreate \cap subs
+\* subsToRepublish holds the ids captured when the session was restored (or what TransferSubscriptions
+\* returned).  A server without Republish (gopcua server) makes the republish fail and the subscription is
+\* re-created; an id that was cancelled meanwhile fails in both and is only counted.
+RsRep == IF SrvTransfers THEN toRepublish \cap subs ELSE {}
+RsRec == (toRecreate \cap subs) \cup (IF SrvTransfers THEN {} ELSE toRepublish \cap subs)
+RsCount == Cardinality(toRepublish) + Cardinality(RsRec \ toRepublish) + Cardinality(RsRec \cap toRepublish)
+\* republishSubscription takes the read lock, recreateSubscription the write lock
+RsNeedsMux == toRepublish # {} \/ RsRec # {}
 RsOk  == SessOk /\ ~ctxDone
 
 \* `for len(c.sechanErr) > 0 { <-c.sechanErr }` after the last arm, before the mon.done hook
@@ -493,12 +501,12 @@ Drained == IF conn = "dead" /\ ~Dev_DrainDropsLoss THEN "eof" ELSE "none"
 
 RsFinish ==
   IF RsOk \/ RsRec = {}
-    THEN /\ activeSubs' = Cardinality(RsRep) + Cardinality(RsRec)
+    THEN /\ activeSubs' = RsCount
          /\ srvSubs' = IF RsOk THEN srvSubs \cup RsRec ELSE srvSubs
          /\ lost' = IF restored /\ Dev_RestoreNoResume THEN subs ELSE {}
          /\ state' = Report("Connected") /\ action' = "none" /\ mpc' = "m.done"
     ELSE IF Dev_RecreateErrorLost
-           THEN /\ activeSubs' = Cardinality(RsRep) /\ lost' = RsRec /\ UNCHANGED srvSubs
+           THEN /\ activeSubs' = Cardinality(toRepublish) /\ lost' = RsRec /\ UNCHANGED srvSubs
                 /\ state' = Report("Connected") /\ action' = "none" /\ mpc' = "m.done"
            ELSE /\ action' = "recreateSession" /\ mpc' = ArmEnd
                 /\ UNCHANGED <<activeSubs, srvSubs, lost, state>>
@@ -508,7 +516,7 @@ MonRestoreSubs ==
   /\ IF RsRec # {} /\ RsRec = subs /\ Cardinality(subs) = 1
        THEN /\ mux = "none" /\ mux' = "mon" /\ mpc' = "m.rpsend"
             /\ UNCHANGED <<activeSubs, srvSubs, lost, state, action>>
-       ELSE /\ (RsRec # {} => mux = "none") /\ UNCHANGED mux
+       ELSE /\ (RsNeedsMux => mux = "none") /\ UNCHANGED mux
             /\ RsFinish
   /\ errq' = IF mpc' = "m.done" THEN Drained ELSE errq
   /\ Log("mon", "RestoreSubs", mpc')
